@@ -131,15 +131,16 @@ class GenV:
         self.out = None
         self.thread = None
         self.uid = fresh_id()
+        self.body = None
         fr.gen = self
         interp.live_gens.append(self)
 
     def __repr__(self):
-        return f"<generator {self.f.qualname} ({self.state})>"
+        return f"<generator {getattr(self.f, 'qualname', '<genexpr>')} ({self.state})>"
 
     def __deepcopy__(self, memo):
         if self.state in ("created", "suspended"):
-            raise Unsupported(f"a suspended generator ({self.f.qualname}) is stored in the analysed heap")
+            raise Unsupported(f"a suspended generator ({getattr(self.f, 'qualname', '<genexpr>')}) is stored in the analysed heap")
         return self
 
     # ---- consumer side
@@ -233,7 +234,10 @@ class GenV:
         it = self.interp
         try:
             try:
-                it.exec_block(self.f.node.body, self.fr)
+                if self.body is not None:
+                    self.body(self)  # generator expression
+                else:
+                    it.exec_block(self.f.node.body, self.fr)
                 self.out = ("return", None)
             except ReturnEx as r:
                 self.out = ("return", r.value)
@@ -1420,6 +1424,20 @@ class Interp:
 
     def hashable(self, k, node):
         k = self.force(k, node)
+
+        def unhashable(v):
+            if isinstance(v, (ListV, DictV, SetV)):
+                return type(v).__name__
+            if isinstance(v, tuple):
+                for x in v:
+                    r = unhashable(x)
+                    if r:
+                        return r
+            return None
+
+        bad = unhashable(k)
+        if bad:
+            raise AbsRaise(self.make_exc("TypeError", f"unhashable type: '{ {'ListV': 'list', 'DictV': 'dict', 'SetV': 'set'}[bad]}'"), self.site(node), True)
         if isinstance(k, (str, int, bool, Fraction, bytes, tuple, type(None), frozenset, SymStr, Sym, Obj, ClassV, Ext, BuiltinV, FuncV)):
             return k
         self.unsupported(f"dict key {k!r}", node)
@@ -1516,7 +1534,23 @@ class Interp:
         b = self.eval(e.right, fr)
         return self.binop(e.op, a, b, e)
 
+    def set_op(self, op, a, b, node):
+        """- | & ^ on sets (elements compared with ==)"""
+        def has(items, x):
+            return any(self.truth(self.equal(x, y, node), node) for y in items)
+
+        A, B = list(a.items), list(b.items)
+        if isinstance(op, ast.Sub):
+            return SetV([x for x in A if not has(B, x)])
+        if isinstance(op, ast.BitAnd):
+            return SetV([x for x in A if has(B, x)])
+        if isinstance(op, ast.BitOr):
+            return SetV(A + [x for x in B if not has(A, x)])
+        return SetV([x for x in A if not has(B, x)] + [x for x in B if not has(A, x)])
+
     def binop(self, op, a, b, node):
+        if isinstance(a, SetV) and isinstance(b, SetV) and isinstance(op, (ast.Sub, ast.BitAnd, ast.BitOr, ast.BitXor)):
+            return self.set_op(op, a, b, node)
         if isinstance(a, Obj) or isinstance(b, Obj):
             r = self.obj_binop(op, a, b, node)
             if r is not NotImplemented:
@@ -1827,7 +1861,21 @@ class Interp:
         return ListV(out)
 
     def e_GeneratorExp(self, e, fr):
-        return self.e_ListComp(e, fr)
+        """a generator expression is lazy: its first iterable is evaluated now, everything else when it is consumed"""
+        first = self.eval(e.generators[0].iter, fr)
+        gfr = Frame(fr.module, fr.func, closure=[fr.locals] + fr.closure, mangle=fr.mangle, owner=fr.owner)
+        gfr.site_fn = fr.site_fn + ".<genexpr>"
+
+        class _F:  # stands in for the generator's function object
+            qualname = gfr.site_fn
+
+        g = GenV(self, _F, gfr, e)
+
+        def body(gen):
+            self.comp(e.generators, 0, gfr, lambda f: gen.do_yield(self.eval(e.elt, f), e), e, first=first)
+
+        g.body = body
+        return g
 
     def e_SetComp(self, e, fr):
         return SetV(self.e_ListComp(e, fr).items)
@@ -1841,12 +1889,12 @@ class Interp:
         self.comp(e.generators, 0, fr, add, e)
         return d
 
-    def comp(self, gens, i, fr, emit, node):
+    def comp(self, gens, i, fr, emit, node, first=MISSING):
         if i == len(gens):
             emit(fr)
             return
         g = gens[i]
-        it = self.eval(g.iter, fr) if i > 0 else self.eval(g.iter, fr)
+        it = first if (i == 0 and first is not MISSING) else self.eval(g.iter, fr)
         kind, items = self.iterate(it, node)
         if kind != "known":
             k = self.generic_len(items, node)  # the same length as every other loop over this list on this path
